@@ -18,12 +18,16 @@ for d in sorted(glob.glob(f"{ROOT}/seeded/C*-*")):
     needs = (needs[:160] + "…") if len(needs) > 160 else needs
     needs = needs.replace("|", "/")
     rnd = meta.get("round", "")
-    if sid in matrix:
-        r = matrix[sid]
-        own = r.get(prop)
+    if sid in matrix and len([k for k in matrix[sid] if k.startswith("C")]) >= 19:
+        r = {k: v for k, v in matrix[sid].items() if k.startswith("C")}
+        own = matrix[sid].get("own_final") or r.get(prop)
         own_txt = "**yes**" if own == "INPUT" else ("obligation only" if own == "tie" else "**NO**")
         others = ", ".join(p for p, v in sorted(r.items()) if v == "INPUT" and p != prop) or "-"
         ties = ", ".join(p for p, v in sorted(r.items()) if v == "tie" and p != prop) or "-"
+    elif sid in matrix and matrix[sid].get("own_final"):
+        own = matrix[sid]["own_final"]
+        own_txt = ("**yes**" if own == "INPUT" else ("obligation only" if own == "tie" else "**NO**")) + " (isolated run, own check only)"
+        others, ties = "(not run)", ""
     else:
         oc = meta.get("own_check", "failing-input")
         own_txt = {"failing-input": "**yes**", "obligation-only": "obligation only", "missed": "**NO**"}.get(oc, oc) + " (individual run)"
